@@ -205,6 +205,111 @@ fn dedent_probe(case: &Value) -> Value {
     }
 }
 
+/// Layer 2 tie (coq/Serde/JsonTextCheck.v): the JSON text that `SerializationFormat::Json.to_string` writes for a value,
+/// what `SerializationFormat::Json.from_str` (dedent + serde_json::from_str) and `SerializationFormat::Json.open`
+/// (serde_json::from_reader on the saved file) read from it through `deserialize_any` (order-keeping [`Tree`]), and the two
+/// float oracles of the model, taken from the implementation for this text: `fmt` = (bits, printed token) of every double
+/// of the value, `parse` = (token, bits) for every maximal run of the bytes `0-9 + - . e E` in the text that serde_json
+/// reads, standing alone, as an f64.
+///   {"ty":"jsonlayer","lib":"gds"|"lef","val":<data-model JSON>}           the typed library value
+///   {"ty":"jsonlayer","lib":"any","val":<any JSON>,"wrap":n}                 a serde_json::Value (keys sorted), wrapped n times
+///   {"ty":"jsonlayer","lib":"text","hex":<bytes>}                            a given text (no `fmt`)
+fn num_runs(text: &[u8]) -> Vec<Value> {
+    let is_num = |b: u8| b.is_ascii_digit() || b == b'+' || b == b'-' || b == b'.' || b == b'e' || b == b'E';
+    let mut seen = std::collections::BTreeSet::new();
+    let mut out = Vec::new();
+    let mut i = 0;
+    while i < text.len() {
+        if is_num(text[i]) {
+            let mut j = i;
+            while j < text.len() && is_num(text[j]) {
+                j += 1;
+            }
+            let tok = std::str::from_utf8(&text[i..j]).unwrap().to_string();
+            if seen.insert(tok.clone()) {
+                if let Ok(Tree(t)) = serde_json::from_str::<Tree>(&tok) {
+                    if let Some(b) = t.get("f") {
+                        out.push(json!([tok, b]));
+                    }
+                }
+            }
+            i = j;
+        } else {
+            i += 1;
+        }
+    }
+    out
+}
+fn read_back(text_bytes: &[u8], saved: Option<&std::path::Path>) -> (Value, Value) {
+    let st = match std::str::from_utf8(text_bytes) {
+        Ok(s) => match SerializationFormat::Json.from_str::<Tree>(s) {
+            Ok(Tree(v)) => json!({ "ok": v }),
+            Err(e) => json!({ "err": e.to_string() }),
+        },
+        Err(_) => Value::Null,
+    };
+    let dir = std::path::Path::new("/verif/work/c18/tmp");
+    std::fs::create_dir_all(dir).unwrap();
+    let own = dir.join(format!("j{}.json", std::process::id()));
+    let path = match saved {
+        Some(p) => p,
+        None => {
+            std::fs::write(&own, text_bytes).unwrap();
+            &own
+        }
+    };
+    let op = match SerializationFormat::Json.open::<Tree>(path) {
+        Ok(Tree(v)) => json!({ "ok": v }),
+        Err(e) => json!({ "err": e.to_string() }),
+    };
+    let _ = std::fs::remove_file(path);
+    (st, op)
+}
+fn jsonlayer_of<T: Serialize>(v: &T) -> Value {
+    let text = match SerializationFormat::Json.to_string(v) {
+        Ok(t) => t,
+        Err(e) => return json!({"to_string_err": e.to_string()}),
+    };
+    let mut toks = Vec::new();
+    float_tokens(&serde_json::to_value(v).unwrap(), &mut toks);
+    let dir = std::path::Path::new("/verif/work/c18/tmp");
+    std::fs::create_dir_all(dir).unwrap();
+    let path = dir.join(format!("s{}.json", std::process::id()));
+    // `save` over an older, longer file, as in `trip`
+    std::fs::write(&path, format!("{}\n{}\n", text, text)).unwrap();
+    if let Err(e) = SerializationFormat::Json.save(v, &path) {
+        return json!({"save_err": e.to_string()});
+    }
+    let saved_same = std::fs::read(&path).map(|b| b == text.as_bytes()).unwrap_or(false);
+    let (st, op) = read_back(text.as_bytes(), Some(&path));
+    json!({"text": text, "fmt": toks, "parse": num_runs(text.as_bytes()), "from_str": st, "open": op, "saved_same": saved_same})
+}
+fn jsonlayer(case: &Value) -> Value {
+    match case["lib"].as_str().unwrap_or("") {
+        "gds" => match serde_json::from_value::<gds21::GdsLibrary>(decode_floats(&case["val"])) {
+            Ok(v) => jsonlayer_of(&v),
+            Err(e) => json!({"de_err": e.to_string()}),
+        },
+        "lef" => match serde_json::from_value::<lef21::LefLibrary>(decode_floats(&case["val"])) {
+            Ok(v) => jsonlayer_of(&v),
+            Err(e) => json!({"de_err": e.to_string()}),
+        },
+        "any" => {
+            let mut v = decode_floats(&case["val"]);
+            for i in 0..case["wrap"].as_u64().unwrap_or(0) {
+                v = if i % 2 == 0 { Value::Array(vec![v]) } else { json!({ "k": v }) };
+            }
+            jsonlayer_of(&v)
+        }
+        "text" => {
+            let bytes = unhex(case["hex"].as_str().expect("hex"));
+            let (st, op) = read_back(&bytes, None);
+            json!({"parse": num_runs(&bytes), "from_str": st, "open": op})
+        }
+        _ => json!({"harness_error": "bad lib"}),
+    }
+}
+
 fn run(case: &Value) -> Value {
     let want_text = case["want_text"].as_bool().unwrap_or(false);
     match case["ty"].as_str().unwrap_or("") {
@@ -246,6 +351,7 @@ fn run(case: &Value) -> Value {
         "jsontext" => jsontext(case),
         "jsonparse" => jsonparse(case),
         "dedent" => dedent_probe(case),
+        "jsonlayer" => jsonlayer(case),
         _ => json!({"harness_error": "bad ty"}),
     }
 }
